@@ -23,6 +23,11 @@ CLAIMED = {
    note='Trusted: Coq kernel; reifier probe (3 triples distinguishing the layouts, encoder and decoder must agree); extraction + driver; struct.pack(">Q"). No axioms.',
    technique='Coq proof (bit operations reduced to div/mod, lia) + reified per-version layout decided by kernel evaluation + extracted-model differential correspondence',
    design='3/C04'),
+ 'C17': dict(
+   text='Machine-checked proof (Coq) for every non-empty byte string d (hence every digest, whatever the hash): the model of minecraft_sha1_hash_digest (signed big-endian value, then format(n,"x")) yields a string that parses - as optional minus sign plus lower-case hex digits - to the two\'s-complement value of d, has at least one digit, no leading zero digit except the single "0", and no "-0": Java BigInteger(bytes).toString(16) semantics, including top bit set, leading zero nibbles and leading zero bytes. The digest input order (UTF-8 server id, secret, key) is part of the model; SHA-1 is an executable Gallina implementation and the three published vectors (Notch, jeb_, simon) are computed by the kernel. Tied to the code by differential runs of generate_verification_hash and minecraft_sha1_hash_digest against the extracted model and an independent Java-semantics oracle (published vectors, searched digest shapes, non-ASCII ids, random triples, arbitrary digests).',
+   note='Trusted: Coq kernel; extraction + driver; hashlib.sha1 is validated against the Gallina SHA-1 on every case, not verified; int.from_bytes and format are CPython library code mirrored by the model. No axioms. Uniqueness of the canonical string for a value is stated informally (not yet a theorem).',
+   technique='Coq proof (parse/format inverse, canonical form) + executable Gallina SHA-1 checked on published vectors by the kernel + extracted-model differential correspondence',
+   design='3/C17'),
 }
 NOT_YET = 'check not built yet in this development (see DESIGN.md section 6 build order); not claimed'
 
